@@ -249,7 +249,9 @@ def main(tier, seed):
         ctx.count('source:' + kind)
         for rs in r['reasons'] or ['in-domain']:
             ctx.count('reason:' + rs)
-        if not r['ok'] and set(r['reasons']) & EX.OUTSIDE_STATEMENT:
+        # values DBML has no syntax for are outside the statement only for API-built databases: a database obtained
+        # by PARSING must round-trip whatever it holds (the parser never produces such values)
+        if not r['ok'] and kind in ('api', 'wild') and set(r['reasons']) & EX.OUTSIDE_STATEMENT:
             ctx.count('outside-statement(values DBML cannot express)')
         elif not r['ok']:
             reasons = r['reasons']
